@@ -100,6 +100,9 @@ func NewUpstreamReverseProxy(config *UpstreamConfig, signer *RequestSigner) (htt
 			for key := range securityHeaders {
 				resp.Header.Del(key)
 			}
+			// Strict-Transport-Security is set by the requireHTTPS middleware and is just as
+			// protected: an upstream must not replace or weaken it.
+			resp.Header.Del("Strict-Transport-Security")
 
 			return nil
 		},
